@@ -64,6 +64,21 @@ Theorem C09_scatter_partition :
 Proof. exact extents_cover. Qed.
 Print Assumptions C09_scatter_partition.
 
+(* (iv) No index is visited twice; never more workers than entries; and for GOMAXPROCS = p >= 1
+   at most 2p - 1 workers are started (the bound is met: n = 2p - 1 gives extent size 1). *)
+Theorem C09_scatter_no_index_twice :
+  forall n p, NoDup (covered (extents n p)).
+Proof. exact covered_NoDup. Qed.
+Print Assumptions C09_scatter_no_index_twice.
+
+Theorem C09_scatter_workers_bounded :
+  forall n p : nat, (workers n (extent_size n p) <= n /\ (1 <= p -> workers n (extent_size n p) + 1 <= 2 * p))%nat.
+Proof. exact (fun n p => conj (workers_le_n n p) (workers_bound n p)). Qed.
+Print Assumptions C09_scatter_workers_bounded.
+
+Example C09_scatter_bound_met : workers 7 (extent_size 7 4) = 7%nat.
+Proof. reflexivity. Qed.
+
 Example C09_example :
   Forall op_wf [OAttest ex_cl (by_key 1) (ex_att 0 1 1) no_ofault; OAttest ex_cl (by_key 1) (ex_att 1 2 1) no_ofault] /\
   cfg_wf (ex_cfg true) /\
